@@ -90,3 +90,9 @@ func VerifInstallRepoConstructor() {
 
 // VerifSetLink: path is a symbolic link that currently points to target (publishers re-point it to each new list)
 func VerifSetLink(path, target string) { links[path] = target }
+
+// VerifOnDisk: the repository keeps its lists in the LevelDB backend
+func (r *Repository) VerifOnDisk() bool {
+	_, ok := r.Factory.(crlstore.LevelDbStoreFactory)
+	return ok
+}
